@@ -66,7 +66,8 @@ Print monitor_hits.
 
 
 def pairs(term):
-    return [(int(a), int(b)) for a, b in re.findall(r"\((\d+)%?n?a?t?, (\d+)%?n?a?t?\)", term or "")]
+    flat = re.sub(r"\s+", "", term or "")
+    return [(int(a), int(b)) for a, b in re.findall(r"\((\d+)(?:%nat)?,(\d+)(?:%nat)?\)", flat)]
 
 
 def main():
